@@ -35,6 +35,45 @@ __CPROVER_assigns(g_ccalls)
 __CPROVER_ensures((__CPROVER_return_value != 0) == (g_in_deferred_list != 0 && g_cell_answer != 0))                       /*@ob C05.state-defers-the-event-iff-listed-and-its-condition-holds */
 ;
 #endif
+#if UNIT_DEF_TABLE_CTOR
+/* is_event_deferred_dispatch_table(const State&, const Fsm&): one cell per event of State::deferred_events (g_n of them, list position = type_t),
+   keyed by the event's own type index and pointing to convert_and_execute<State, Event, Fsm> of the SAME event */
+extern const int g_n; extern int g_next;
+typedef struct { int dummy; } deftable_t;
+#define TYPE_INDEX(E) (E)
+#define CELL_OF(E) (E)
+void cells_set(deftable_t* self, type_t key, type_t cell)                       /* m_cells[key] = cell  [A: std::unordered_map::operator[]] */
+__CPROVER_requires(key == g_next && 0 <= g_next && g_next < g_n)                  /*@ob C05,C13.every-deferred-event-of-the-state-gets-a-cell-in-list-order-none-twice */
+__CPROVER_requires(cell == key)                                                   /*@ob C05,C18.the-cell-stored-under-an-event-type-converts-to-that-very-type */
+__CPROVER_assigns(g_next)
+__CPROVER_ensures(g_next == __CPROVER_old(g_next) + 1)
+;
+void deftable_construct(deftable_t* self)
+__CPROVER_requires(__CPROVER_is_fresh(self, sizeof(*self)) && 0 <= g_n && g_n <= 1000000 && g_next == 0)
+__CPROVER_assigns(g_next)
+__CPROVER_ensures(g_next == g_n)                                                                            /*@ob C05,C13.every-deferred-event-of-the-state-gets-a-cell-in-list-order-none-twice */
+;
+#endif
+#if UNIT_DEF_CONVERT
+/* convert_and_execute<State, Event, Fsm>(state, any_event, fsm): state.is_event_deferred(*any_cast<Event>(&event), fsm) */
+extern const _Bool g_state_answer; extern int g_scalls;
+event_t any_cast_ptr_deref(type_t Event, event_t event)                        /* *any_cast<Event>(&event)  [A: std::any_cast] */
+__CPROVER_requires(Event == g_dyn_type)                                           /*@ob C18.event-converted-to-its-own-dynamic-type-only */
+__CPROVER_requires(EV_EQ(event, g_evt))
+__CPROVER_assigns()
+__CPROVER_ensures(EV_EQ(__CPROVER_return_value, g_evt))
+;
+_Bool state_is_event_deferred(stref_t state, event_t event, const fsm_t* fsm)
+__CPROVER_requires(g_scalls == 0 && EV_EQ(event, g_evt))                          /*@ob C05,C18.conditional-deferral-asked-once-with-the-event-unchanged */
+__CPROVER_assigns(g_scalls)
+__CPROVER_ensures(g_scalls == 1 && __CPROVER_return_value == g_state_answer)
+;
+_Bool convert_and_execute(type_t Event, stref_t state, event_t event, const fsm_t* fsm)
+__CPROVER_requires(Event == g_dyn_type && EV_EQ(event, g_evt) && g_scalls == 0)
+__CPROVER_assigns(g_scalls)
+__CPROVER_ensures(g_scalls == 1 && (__CPROVER_return_value != 0) == (g_state_answer != 0))                   /*@ob C05.cell-answers-what-the-state-answers */
+;
+#endif
 #if UNIT_DEF_VISITOR
 typedef struct { _Bool m_result; event_t m_event; } vis_t;
 extern const _Bool g_state_defers;
